@@ -86,6 +86,12 @@ func RatText(r *big.Rat) string {
 	panic("jv: no finite decimal expansion for " + r.String())
 }
 
+// NegZero reports whether the number is zero spelled with a minus sign ("-0", "-0.0", "-0e3"):
+// the same JSON value as 0, but a different float64 once decoded.
+func (v *V) NegZero() bool {
+	return v.K == Num && v.N.Sign() == 0 && strings.HasPrefix(v.Text, "-")
+}
+
 // IsInteger reports whether a Num has zero fractional part.
 func (v *V) IsInteger() bool { return v.K == Num && v.N.IsInt() }
 
@@ -500,6 +506,9 @@ func (v *V) ToAny() any {
 	case Bool:
 		return v.B
 	case Num:
+		if v.NegZero() {
+			return math.Copysign(0, -1) // what encoding/json decodes "-0" into
+		}
 		f, _ := v.N.Float64()
 		return f
 	case Str:
